@@ -594,7 +594,7 @@ def generate(ctx, quick, rng, gen_stats):
     """Yields cases (dicts with stratum/form/pos annotations); the TLC runs are model check + generation at once
     (the INVARIANTS of the Gen_* configurations are the theorems about the literal model)."""
     L = 4 if quick else 5
-    nsim = 800 if quick else 20000
+    nsim = 600 if quick else 20000
     jobs = {
         "str": lambda: ctx.tlc_must_pass("core", "Gen_C15_Str", "Gen_C15_Str_%d.cfg" % L, timeout=2400, deadlock=False, workers=6,
                                          tag="mc+gen-strings-len%d" % L),
@@ -625,7 +625,7 @@ def generate(ctx, quick, rng, gen_stats):
         spell[tuple(sp["text"])] = sp
     g.printed = None
     catalogue = {tuple(sp["text"]) for sp in gc.printed}
-    RENDER["spell"] = [sp for k, sp in sorted(spell.items()) if sp["js"] and (len(k) <= 3 or k in catalogue or rng.random() < 0.1)]
+    RENDER["spell"] = [sp for k, sp in sorted(spell.items()) if sp["js"] and (len(k) <= 2 or k in catalogue or rng.random() < (0.04 if quick else 0.2))]
     gen_stats["spellings"] = len(spell)
     gen_stats["spellings_ord"] = sum(1 for s in spell.values() if s["ord"])
     gen_stats["spellings_block"] = sum(1 for s in spell.values() if s["blk"])
@@ -633,12 +633,18 @@ def generate(ctx, quick, rng, gen_stats):
     if min(gen_stats["spellings_ord"], gen_stats["spellings_block"], gen_stats["spellings_json"]) == 0:
         raise lib.Inconclusive("vacuous generator: a stratum of spellings is empty: %s" % gen_stats)
     deep_len = 2 if quick else 3
-    second = 0.15 if quick else 0.5
+    second = 0.08 if quick else 0.5
     for key in sorted(spell):       # TLC prints in a worker-dependent order: sort so that the seed alone decides
         sp = spell[key]
         if len(key) <= deep_len or key in catalogue:
             yield from string_cases(sp, ["arg", "nn", "id", "list", "obj", "lin", "big"], True)
         else:
+            if quick and sp["blk"] and sp["ord"] and rng.random() < 0.7:
+                # quick tier: a block string without quote, backslash, line terminator or outer white space means the
+                # same as the ordinary string with that text; keep the block form of 30 % of those
+                t = txt(sp["text"])
+                if not (set(t) & set('"\\\n\r')) and t == t.strip(" \t"):
+                    sp = dict(sp, blk=False)
             yield from string_cases(sp, ["arg"], False)
             # one more, seed-chosen, position for a part of the spellings
             if rng.random() < second:
@@ -698,7 +704,7 @@ def render_cases(quick, rng):
         out.append({"ty": "LStr", "kind": "csv", "j": E("list", items=[j, E("str", cp("a"))])})
         out.append({"ty": "LStr", "kind": "gql", "j": E("list", items=[j])})
     pairs = [RENDER["vals"][h] for h in sorted(RENDER.get("vals", {}))]
-    cap = 2500 if quick else 40000
+    cap = 1000 if quick else 40000
     if len(pairs) > cap:
         pairs = rng.sample(pairs, cap)
     for ty, tw in pairs:
@@ -720,10 +726,13 @@ def _vals(v):
 def render_key(c, failed, expected):
     cls = None
     if c["kind"] == "gql":
-        if any(x["t"] == "e" for x in _vals(expected)):
-            cls = "enum-as-string"
-        elif any(x["t"] == "s" and any(ch in (34, 92) or ch < 32 for ch in x["s"]) for x in _vals(expected)):
+        esc = any(x["t"] == "s" and any(ch in (34, 92) or ch < 32 for ch in x["s"]) for x in _vals(expected))
+        enum = any(x["t"] == "e" for x in _vals(expected))
+        # an enum rendered as a string literal still gives valid JSON: an invalid input can only come from a string
+        if esc and ("RenderValid" in failed or not enum):
             cls = "string-quote-backslash-control"
+        elif enum:
+            cls = "enum-as-string"
     if cls is None:
         f = features(c["j"])
         order = STRING_CLASSES + ["number-exp-sign-no-fraction", "number-spelling", "structure", "null"]
